@@ -52,7 +52,7 @@ def main():
         ok = r0.returncode == 0 and r1.returncode != 0
         if ok and not skip_tests:
             t = time.time()
-            rt = subprocess.run("/venv/bin/python -m pytest -q -p no:cacheprovider --timeout=900 tests 2>&1 | tail -1", shell=True, cwd=wt, capture_output=True, text=True, env=dict(os.environ, PYTHONDONTWRITEBYTECODE="1"))
+            rt = subprocess.run("/venv/bin/python -m pytest -q -p no:cacheprovider --timeout=900 tests 2>&1 | grep -E \"^(FAILED|ERROR)|passed|failed\" | tail -4 | tr \"\\n\" \" \"", shell=True, cwd=wt, capture_output=True, text=True, env=dict(os.environ, PYTHONDONTWRITEBYTECODE="1"))
             line = rt.stdout.strip()
             res["ran"].append(f"pytest with patch: {line}")
             ok = ok and "51 passed" in line and "failed" not in line
